@@ -3889,15 +3889,26 @@ func recv2(n *node) {
 	vres := genValueDefine(n.anc.child[0]) // result
 	vok := genValueDefine(n.anc.child[1])  // status
 	tnext := getExec(n.tnext)
+	doValue := !isBlank(n.anc.child[0])
+	doStatus := !isBlank(n.anc.child[1])
+
+	// A blank operand has no location in the frame: nothing is stored for it.
+	set := func(f *frame, v reflect.Value, ok bool) {
+		if doValue {
+			vres(f).Set(v)
+		}
+		if doStatus {
+			vok(f).SetBool(ok)
+		}
+	}
 
 	if n.interp.cancelChan {
 		// Cancellable channel read
 		n.exec = func(f *frame) bltn {
-			ch, result, status := vchan(f), vres(f), vok(f)
+			ch := vchan(f)
 			//  Fast: channel read doesn't block
 			if v, ok := ch.TryRecv(); ok {
-				result.Set(v)
-				status.SetBool(true)
+				set(f, v, true)
 				return tnext
 			}
 			// Slow: channel is blocked, allow cancel
@@ -3909,16 +3920,14 @@ func recv2(n *node) {
 			if chosen == 0 {
 				return nil
 			}
-			result.Set(v)
-			status.SetBool(ok)
+			set(f, v, ok)
 			return tnext
 		}
 	} else {
 		// Blocking channel read (less overhead)
 		n.exec = func(f *frame) bltn {
 			v, ok := vchan(f).Recv()
-			vres(f).Set(v)
-			vok(f).SetBool(ok)
+			set(f, v, ok)
 			return tnext
 		}
 	}
